@@ -209,7 +209,7 @@ def random_schedule(rng, emphasis):
                     "code": rng.choice([69, 132, 0]) if True else 0,
                     "mid": mid,
                     "tok": newtok(),
-                    "loc": rng.choice(["u", "u", "m"]),
+                    "loc": rng.choice(["u", "u", "m", "m4"]),
                 }
             )
         elif kind == "misfit":
